@@ -144,6 +144,34 @@ fn failure_sites(sorenson: bool) -> Vec<(String, Vec<u8>)> {
             }
         }
     }
+    // the same faults in pictures of another size than anything the state graph stores (a key frame
+    // that announces a new size and then fails below its header must leave the stored pictures alone)
+    for &(w, h) in &[(16u16, 16u16), (48, 32)] {
+        let sized = |ptype: u8| -> Hdr {
+            if sorenson {
+                Hdr::S(SHdr { version: 0, tr: 91, size: SSize::auto(w, h), ptype, deblock: false, q: 9, pei: vec![] })
+            } else {
+                Hdr::Std(StdHdr::custom(w, h, ptype != 0, 91, 9))
+            }
+        };
+        for (name, ibits, pbits) in faults.iter().filter(|f| ["invalid MCBPC", "INTRADC 0"].contains(&f.0)) {
+            for k in 0..2usize {
+                let types: &[u8] = if sorenson { &[0, 1, 2] } else { &[0, 1] };
+                for &ptype in types {
+                    if ptype != 0 && k == 0 {
+                        continue;
+                    }
+                    let fb = if ptype == 0 { ibits } else { pbits };
+                    let mut mbs: Vec<Mb> = (0..k).map(|_| good_mb()).collect();
+                    mbs.push(Mb::Raw(bits(fb)));
+                    v.push((format!("{name} in macroblock {k} of a {w}x{h} picture of type {ptype}"), enc(&Pic { hdr: sized(ptype), mbs }, &[0, 0])));
+                }
+            }
+        }
+        // data ending inside the second macroblock of a key frame of that size
+        let full = enc(&Pic { hdr: sized(0), mbs: vec![good_mb(), good_mb()] }, &[]);
+        v.push((format!("{w}x{h} key frame cut inside its second macroblock"), full[..full.len() - 3].to_vec()));
+    }
     // faults in a later block of a macroblock, after earlier blocks of the same macroblock have
     // been dequantised and stored (bright DC + AC data), in the first and in the second macroblock
     for k in 0..2usize {
